@@ -205,6 +205,12 @@ def run(res):
             t = ".device %s\n#pragma AVRPART CORE INSTRUCTIONS_NOT_SUPPORTED %s\n.pragma AVRPART CORE INSTRUCTIONS_NOT_SUPPORTED break movw mul\n%s\n" % (name, mn, text)
             texts.append(t)
             meta.append((t, name, text, flags, set(opts)))
+    for name, _, _, _, _, opts in devs[1:]:
+        for text, flags in FORMS[::5]:
+            mn = text.split()[0]
+            t = ".device %s\n.macro %s\n nop\n nop\n.endm\n%s\n" % (name, mn, text)
+            texts.append(t)
+            meta.append((t, name, text, flags, set(opts)))
     uni = universal_programs(rng, 30 if res.tier == "quick" else 3000)
     uni_meta = []
     for u in uni:
